@@ -237,6 +237,16 @@ theorem skip_unkeyable (c : Checker) (rs : List Loc) :
     obtain ⟨r, rest, h1, h2, h3⟩ := checkAll_error_split_keyable c rs e he
     exact ⟨r, rest, h1, h2, Loc.unkeyable_false_iff.2 h3⟩
 
+/-- a record on a chromosome that a supplied contig list does not name is REPORTED by the checker (`ValueError`), never
+    skipped - also when its position texts are no numbers (the contig lookup comes first: of the two defects the
+    unlisted chromosome wins; a record without a readable position is skipped only when its chromosome is known) -/
+theorem unlisted_contig_reported (c : Checker) (hs : c.order.sortable = true) (l : Loc)
+    (h0 : l.hasCoords = true) (hne : c.contigs ≠ []) (h : ∀ s, l.chrName = some s → s ∉ c.contigs) :
+    c.add l = .error .value := by
+  unfold Checker.add
+  rw [C08.contig_missing_of_hasCoords c.order c.contigs l h0 hne h]
+  simp [hs]
+
 /-- d. the special case of records without coordinate columns (the statement `skip_unkeyable` had
     before a non-numeric position text became a `KeyError`; it still holds, with the filter
     "has its coordinate columns" in place of "can be keyed") -/
